@@ -8,7 +8,7 @@ use yasna::Tag;
 #[cfg(feature = "pem")]
 use crate::ENCODE_CONFIG;
 use crate::{
-	oid, write_distinguished_name, write_dt_utc_or_generalized,
+	dt_strip_nanos, oid, write_distinguished_name, write_dt_utc_or_generalized,
 	write_x509_authority_key_identifier, write_x509_extension, Certificate, Error, Issuer,
 	KeyIdMethod, KeyPair, KeyUsagePurpose, SerialNumber,
 };
@@ -193,7 +193,8 @@ impl CertificateRevocationListParams {
 		issuer: &Certificate,
 		issuer_key: &KeyPair,
 	) -> Result<CertificateRevocationList, Error> {
-		if self.next_update.le(&self.this_update) {
+		// Compare what will be encoded: times are written with whole-second precision
+		if dt_strip_nanos(self.next_update).le(&dt_strip_nanos(self.this_update)) {
 			return Err(Error::InvalidCrlNextUpdate);
 		}
 
